@@ -89,10 +89,10 @@ def to_replay_text(zones, out):
 def export(tier, seed, verdict):
     """Runs (or reuses) the TLC enumeration; returns (list of zone dicts, stats)."""
     if tier == "thorough":
-        palettes, grid, maxtrans, nsh = [1, 2, 3, 4, 5], "GridB", 3, max(2, V.NCPU - 2)
+        palettes, grid, maxtrans, nsh = [1, 2, 3, 4, 5, 6], "GridB", 3, max(2, V.NCPU - 2)
     else:
         rot = [[1, 2], [3, 4], [5, 1], [2, 3], [4, 5]][seed % 5]
-        palettes, grid, maxtrans, nsh = rot, "GridA", 2, 8
+        palettes, grid, maxtrans, nsh = rot + [6], "GridA", 2, 8       # palette 6 (designation-only entries beside offset changes) always
     key = "%s-%s-%s-%d" % (_spec_hash(), "".join(map(str, palettes)), grid, maxtrans)
     cdir = os.path.join(V.BUILD, "smallworld", key)
     meta = os.path.join(cdir, "meta.json")
